@@ -94,6 +94,10 @@ async fn checkpoint_update_git<'a>(
                 pending.insert(change.name.clone(), file::get_file_checksum(&p).await?);
             }
             checkpoint.pending = Some(pending);
+        } else {
+            // Nothing is pending any more: forget what an earlier update recorded,
+            // otherwise its stale checksums keep hiding later changes to those paths.
+            checkpoint.pending = None;
         }
     }
     checkpoint.save()?;
